@@ -51,6 +51,12 @@ pub fn prep_arena(arena: &mut ByteArena, k: i64) {
         let _ = arena.read_n(&filler[..], 10, NonZeroUsize::MAX).expect("filler read");
         return;
     }
+    if k == -3 {
+        // a young arena: one small read, the first chunk is mostly free
+        let filler = [0x55u8; 10];
+        let _ = arena.read_n(&filler[..], 10, NonZeroUsize::MAX).expect("filler read");
+        return;
+    }
     if k < 0 {
         return;
     }
